@@ -130,8 +130,14 @@ def rule_header(ctx, repo):
         r.undecided('parse:recover-args', rc.site, 'no single recover(...) call')
     else:
         a = calls[0].args
+        # behind the 65-byte test the signature's length is known: sig[33:] and sig[33:65], sig[-32:] ... are one slice
+        exact = _ct('len(%s) != 65' % sv) in guards
+
+        def fixed(e_):
+            e_ = common.resolved(rc, e_, repo)
+            return common.fix_length(e_, sv, 65) if exact else e_
         for k_, e_, w_ in (('sigR', a[0], '%s[1:33]' % sv), ('sigS', a[1], '%s[33:65]' % sv), ('recid', a[4], '(%s[0] - 27) & 3' % sv)):
-            common.verdict3(r, 'parse:%s' % k_, common.site_of(rc, calls[0]), repo, rc, e_, w_, k_)
+            common.verdict3(r, 'parse:%s' % k_, common.site_of(rc, calls[0]), repo, rc, fixed(e_), w_, k_)
         ok = common.value_match(repo, rc, a[2], hv) == 'same' and common.value_match(repo, rc, a[3], 'len(%s)' % hv) == 'same'
         r.check(ok, 'parse:recover-args', common.site_of(rc, calls[0]), 'recover(r, s, digest, len, recid)', 'recover is called with %s' % [norm(x) for x in a])
     setc = [n for n in walk_no_nested(rc.node) if isinstance(n, ast.Call) and isinstance(n.func, ast.Attribute) and n.func.attr == 'set_compressed']
